@@ -499,13 +499,18 @@ def isbuiltintype(
 
 @compat.cache
 def isstdlibtype(obj: type) -> compat.TypeIs[type[STDLibtypeT]]:
+    # An alias stands for whatever it names, which may well be (or lead back to) a
+    #   user type: it is not a standard-library type in its own right.
+    if istypealiastype(obj):
+        return False
+
     if isoptionaltype(obj):
-        nargs = tp.get_args(obj)[:-1]
+        # (`None` may be declared at any position, not only last.)
+        nargs = (a for a in tp.get_args(obj) if a not in (None, type(None)))
         return all(isstdlibtype(a) for a in nargs)
     if isuniontype(obj):
         args = tp.get_args(obj)
         return all(isstdlibtype(a) for a in args)
-
     return (
         resolve_supertype(obj) in STDLIB_TYPES
         or resolve_supertype(type(obj)) in STDLIB_TYPES
